@@ -16,6 +16,7 @@ EXPLANATION = (
     "not offered inside methods).  R20.3: the scope lookup is given the line number and the indentation of the same "
     "line.  R20.4: in find_definition the offset-restricting filter precedes the accepting identity filter.  R20.5 (=R14.8): the word finder consults the hard-keyword oracle only (soft keywords are identifiers).  R20.6: a definition line is compared with lines of the completed module only under a test that the definition's module is that module.  'Returns without internal error at every position' and completeness are not decided."
     ' R20.9: the try-block repair classifies comment lines on the stripped line.  R20.10: the offset ledger of the repair books exactly the length change of every edit of the line list, before the old line is gone, and shifts an offset by the lines strictly before its own.'
+    ' R20.11 (=R01.4): a call keyword is answered in the keyword branch; a word that only looks like one still reaches the ordinary name evaluation.'
 )
 ASSUMPTIONS = ["proposal name is the first constructor argument"]
 
